@@ -40,7 +40,89 @@ def trace_and_tie(ctx, need_pipes=True):
         return None
     okk = ctx.compile_tie('GenWaveK', g.text(), [K_TIES])
     okp = ctx.compile_tie('GenWaveP', recipe.pipes_text(defs), [['Wave_TieP']])
+    try:
+        pipeline_self_check(ctx)
+    except Exception as e:
+        ctx.obligation('translator-self-check:pipelines', False, repr(e))
     return g
+
+
+def eval_term(t, env, fields):
+    """numeric value of an operator-level term: fields maps variable names to complex arrays; env the scalar symbols;
+    PAD / CROP use the offsets property C08 proves (start = (2n)/2 - n/2)"""
+    from tracer import opshim
+    def sc(c):
+        v = shim.evalf(c, env)
+        return v
+    def ev(x):
+        if x.op == 'var': return fields[x.a[0]]
+        if x.op == 'one': return np.ones(x.shape, dtype=complex)
+        if x.op == 'lit':
+            a = np.asarray(x.a[0], dtype=object)
+            return np.vectorize(lambda e: complex(shim.evalf(shim.CE.lift(e), env)), otypes=[complex])(a)
+        if x.op == 'F': return np.fft.fft2(ev(x.a[0]))
+        if x.op == 'Finv': return np.fft.ifft2(ev(x.a[0]))
+        if x.op == 'S': return np.fft.fftshift(ev(x.a[0]), axes=(-2, -1))
+        if x.op == 'Sinv': return np.fft.ifftshift(ev(x.a[0]), axes=(-2, -1))
+        if x.op == 'fmul': return ev(x.a[0]) * ev(x.a[1])
+        if x.op == 'fadd': return ev(x.a[0]) + ev(x.a[1])
+        if x.op == 'fscal': return complex(sc(x.a[0])) * ev(x.a[1])
+        if x.op == 'PAD':
+            a = ev(x.a[0]); h, w = a.shape[-2:]
+            out = np.zeros(a.shape[:-2] + (2 * h, 2 * w), dtype=complex)
+            sh, sw = (2 * h) // 2 - h // 2, (2 * w) // 2 - w // 2
+            out[..., sh:sh + h, sw:sw + w] = a
+            return out
+        if x.op == 'CROP':
+            a = ev(x.a[0]); H, W = a.shape[-2:]; h, w = H // 2, W // 2
+            qh, qw = H // 2 - h // 2, W // 2 - w // 2
+            return a[..., qh:qh + h, qw:qw + w]
+        raise shim.TraceError('eval_term: unknown operator %s' % x.op)
+    return ev(t)
+
+
+def pipeline_self_check(ctx):
+    """the operator-level terms evaluated numerically (numpy FFTs, C08 offsets) equal the real propagation functions"""
+    L = lw(); N = nw()
+    rng = np.random.default_rng(ctx.seed + 5)
+    bad = 0; n = 0
+    T = recipe.TERMS
+    lam, dx, z = 0.55, 1.3, 7.0
+    k = 2 * math.pi / lam
+    env = {'k': k, 'z': z, 'dx': dx, 'lam': lam}
+    def rnd(shape): return rng.standard_normal(shape) + 1j * rng.standard_normal(shape)
+    def cmp(name, got, want, tol):
+        nonlocal bad, n
+        n += 1
+        want = to_np(want)
+        e = float(np.abs(got - want).max() / max(1e-30, np.abs(want).max())) if got.shape == want.shape else float('inf')
+        if not e <= tol:
+            bad += 1; ctx.log('pipeline self-check mismatch', name, 'relative deviation', e, got.shape, want.shape)
+    # torch custom and the padded / cropped beam
+    u = rnd((4, 6)); K = rnd((4, 6)); A = rng.uniform(0.2, 1.0, (4, 6))
+    if 't_custom' in T:
+        cmp('t_custom', eval_term(T['t_custom'], env, {'u': u, 'K': K, 'A': A.astype(complex)}),
+            L.custom(torch.tensor(u, dtype=torch.complex64), torch.tensor(K, dtype=torch.complex64), zero_padding=False, aperture=torch.tensor(A, dtype=torch.float32)), 2e-5)
+    for f, typ in (('angular_spectrum', 'Angular Spectrum'), ('transfer_function_fresnel', 'Transfer Function Fresnel'), ('band_limited_angular_spectrum', 'Bandlimited Angular Spectrum')):
+        for name, zp in (('t_beam_nopad_' + f, [False, False, False]), ('t_beam_padcrop_' + f, [True, False, True])):
+            if name not in T: continue
+            u5 = rnd((6, 8)) if zp[0] else u
+            hh, ww = (12, 16) if zp[0] else (4, 6)
+            Kr = L.get_propagation_kernel(nu=hh, nv=ww, dx=dx, wavelength=lam, distance=z, propagation_type=typ).numpy().astype(complex)
+            Ar = rng.uniform(0.2, 1.0, (hh, ww))
+            got = eval_term(T[name], env, {'u': u5, 'K': Kr, 'A': Ar.astype(complex)})
+            want = L.propagate_beam(torch.tensor(u5, dtype=torch.complex64), k, z, dx, lam, propagation_type=typ, zero_padding=zp, aperture=torch.tensor(Ar, dtype=torch.float32))
+            cmp(name, got, want, 2e-4)
+    # NumPy pipelines on the traced 3 x 4 grid (their kernels are traced literals)
+    un = rnd((recipe.NU, recipe.NV))
+    for name, meth in (('n_angular_spectrum', 'Angular Spectrum'), ('n_band_limited_angular_spectrum', 'Bandlimited Angular Spectrum'),
+                       ('n_transfer_function_fresnel', 'Transfer Function Fresnel'), ('n_impulse_response_fresnel', 'Impulse Response Fresnel'), ('n_fraunhofer', 'Fraunhofer')):
+        if name in T:
+            cmp(name, eval_term(T[name], env, {'u': un}), N.propagate_beam(un, k, z, dx, lam, meth), 1e-9)
+    if 't_fraunhofer' in T:
+        cmp('t_fraunhofer', eval_term(T['t_fraunhofer'], env, {'u': un}), L.propagate_beam(torch.tensor(un, dtype=torch.complex64), k, z, dx, lam, propagation_type='Fraunhofer', zero_padding=[False, False, False]), 2e-4)
+    ctx.traces += n
+    ctx.obligation('translator-self-check:pipelines(operator-level terms evaluated with numpy = real propagation functions on %d pipelines)' % n, bad == 0 and n >= 8, '%d mismatches of %d' % (bad, n))
 
 
 def kernel_self_check(ctx, g):
